@@ -83,7 +83,7 @@ def startup(chk):
     if climod is not None and n_conf != 1:
         chk.undecided(rule, "cobald.daemon.core.cli", "%d declarations of the CONFIGURATION argument" % n_conf, node=climod.tree)
     run = prog.func(RUN)
-    outs = Interp(prog, run).run()
+    outs = Interp(prog, run, inline=lambda f, ct: f.cls is None and not f.is_async and f.module is run.module and f.name.startswith("_")).run()
     chk.count(len(outs))
     ok = True
     RUNTIME = ("glob", "cobald.daemon:runtime")
@@ -238,11 +238,20 @@ def keep_alive(chk):
     cp = ("sym", load.params()[0])
     table = {}
     ok3 = True
+    # splitext(path) is (root, extension): any other index is the root or an IndexError for every configuration
+    for n in ast.walk(load.node):
+        if isinstance(n, ast.Subscript) and isinstance(n.value, ast.Call) and (prog.resolve(load.module, n.value.func) or "").endswith("path.splitext") and isinstance(n.slice, ast.Constant) and n.slice.value not in (1, -1):
+            chk.bad("O13.3", load.qual, "the loader is chosen by os.path.splitext(path)[%r], which is %s, not the extension" % (n.slice.value, "the path without its extension" if n.slice.value in (0, -2) else "an IndexError for every path"), node=n, stmt="splitext-index %r" % (n.slice.value,))
+            ok3 = False
     for ext in (".yaml", ".yml", ".py", ".txt", "", ".pyc", ".json"):
 
         def is_ext(t):
             """the extension of the configuration path: splitext(p)[1], `_, ext = splitext(p)`, Path(p).suffix"""
-            return (t[0] in ("sub", "proj") and "splitext" in show(t)) or (t[0] == "attr" and t[2] == "suffix")
+            if t[0] == "sub" and "splitext" in show(t[1]):
+                return t[2] in (("const", 1), ("const", -1))
+            if t[0] == "proj" and "splitext" in show(t[1]):
+                return t[2] in (1, -1)
+            return t[0] == "attr" and t[2] == "suffix"
 
         def decide(it, path, term, ext=ext):
             if term[0] == "cmp" and term[1] in ("==", "!=") and is_ext(term[3]) and term[2][0] == "const":
@@ -337,7 +346,7 @@ def keep_alive(chk):
     elif good is False and not any(ob.construct == yl.qual for ob in chk.obs):
         chk.bad(rule, yl.qual, "the YAML loader does not return the mapping loader's result", node=yl.node, stmt="yaml-return")
     pl = prog.func(PY_LOAD)
-    outs = Interp(prog, pl, decide=lambda it, p, t: False if t[0] == "isnone" else None).run()
+    outs = Interp(prog, pl, decide=lambda it, p, t: False if t[0] == "isnone" else None, inline=lambda f, ct: f.cls is None and not f.is_async and f.module is pl.module and f.name.startswith("_")).run()
     for o in outs:
         chk.count()
         if o.kind != "return":
@@ -360,7 +369,7 @@ def runtime_log(chk):
     m = ("sym", fi.params()[0])
     KEY = ("const", "disable_existing_loggers")
     ok = False
-    for o in Interp(prog, fi).run():
+    for o in Interp(prog, fi, inline=lambda f, ct, fi=fi: f.cls is None and not f.is_async and f.module is fi.module and f.name.startswith("_")).run():
         chk.count()
         cfg = [i for i, e in enumerate(o.path.events) if e[0] == "call" and e[1][1] == ("glob", "ext:logging.config.dictConfig")]
         if not cfg:
@@ -496,7 +505,7 @@ def module_registered_before_exec(chk):
     fi = prog.func(PY_LOAD)
     ok = True
     n = 0
-    for o in Interp(prog, fi).run():
+    for o in Interp(prog, fi, inline=lambda f, ct, fi=fi: f.cls is None and not f.is_async and f.module is fi.module and f.name.startswith("_")).run():
         evs = o.path.events
         ex = [i for i, e in enumerate(evs) if e[0] == "call" and e[1][1][0] == "attr" and e[1][1][2] == "exec_module"]
         if not ex:
@@ -523,6 +532,11 @@ def run(chk):
     chk.guard("O13.7", YAML_LOAD, read_while_open, chk)
     chk.guard("O13.6", "configure_logging", runtime_log, chk)
     chk.guard("O13.1", RUN, startup, chk)
+    # "with any valid YAML configuration": the optional logging section is taken out before unknown sections are
+    # rejected, plugins see exactly their sections (O14.1 / O14.2, shared with C14)
+    from . import c14
+
+    chk.guard("O14.1", c14.MAPPING_LOAD, c14.mapping_rules, chk)
     chk.guard("O13.2", LOAD_SERVICES, keep_alive, chk)
     # a failing service / failing load is a failing payload: the fail-stop chain (shared with C01)
     c01.run(chk)
